@@ -66,7 +66,7 @@ def _gen_check(rng: Rng, lst: str, added: List[dict]) -> dict:
 
 
 def gen_obj_case(rng: Rng, max_ops: int = 30) -> dict:
-    host = rng.choice(["bare", "bare", "router", "firewall", "firewall"])
+    host = rng.choice(["bare", "bare", "router", "firewall", "firewall", "wireless"])
     ctor = None
     mx = 25
     lists = ["router"]
@@ -82,7 +82,7 @@ def gen_obj_case(rng: Rng, max_ops: int = 30) -> dict:
     if host != "bare" and rng.chance(1, 2):
         # rules written in the scenario file: `Router.from_config` / the six loops of `Firewall.from_config`
         preload = {}
-        for lst in (["router"] if host == "router" else [l for l in LISTS if l != "router"]):
+        for lst in (["router"] if host in ("router", "wireless") else [l for l in LISTS if l != "router"]):
             rules = []
             for pos in rng.shuffle(list(range(0, 24)))[:rng.range(0, 3)]:
                 r = _gen_rule(rng)
@@ -137,12 +137,12 @@ def gen_inject(rng: Rng, nports: int) -> dict:
 
 
 def gen_dev_case(rng: Rng, max_ops: int = 14) -> dict:
-    kind = rng.choice(["router", "firewall", "firewall"])
-    lists = ["router"] if kind == "router" else list(LISTS)
-    nports = 2 if kind == "router" else 3
+    kind = rng.choice(["router", "firewall", "firewall", "router", "firewall", "firewall", "wireless"])
+    lists = ["router"] if kind in ("router", "wireless") else list(LISTS)
+    nports = 3 if kind == "firewall" else 2
     addrs = [f"10.0.{p + 1}.2" for p in range(nports)] + [f"10.0.{p + 1}.1" for p in range(nports)] + ["10.0.1.77", "10.0.9.9"]
     ops: List[dict] = []
-    inject = rng.chance(1, 2)
+    inject = rng.chance(1, 2) or kind == "wireless"  # no hosts on the wireless router: injected frames only
     if kind == "firewall" and rng.chance(1, 2):
         # open the four default-deny lists first (by assignment or by an explicit permit-all rule), so that pings get
         # through unless a later rule or assignment stops them
@@ -169,7 +169,7 @@ def gen_dev_case(rng: Rng, max_ops: int = 14) -> dict:
             ops.append({"op": "remove", "list": lst, "surface": rng.choice(["api", "request", "action"]), "pos": rng.choice([0, 1, 22, 23, 24, -1])})
         elif k < 6:
             ops.append({"op": "setimp", "list": lst, "value": rng.choice(["PERMIT", "PERMIT", "DENY"])})
-        elif k < 8 or not inject:
+        elif (k < 8 or not inject) and kind != "wireless":
             s = rng.below(nports)
             d = rng.choice([q for q in range(nports) if q != s])
             ops.append({"op": "ping", "src": s, "dst": d})
@@ -463,7 +463,7 @@ def scenario_entry(item: dict) -> dict:
 def acl_config(kind: str, preload: Optional[dict]):
     if not preload:
         return None
-    if kind == "router":
+    if kind in ("router", "wireless"):
         return {it["pos"]: scenario_entry(it) for it in preload.get("router", [])}
     return {FW_ATTR[l]: {it["pos"]: scenario_entry(it) for it in preload.get(l, [])} for l in FW_ATTR}
 
@@ -481,6 +481,15 @@ def build_device(kind: str, with_hosts: bool = True, preload: Optional[dict] = N
     acl_cfg = acl_config(kind, preload)
     if acl_cfg is not None:
         cfg["acl"] = acl_cfg
+    if kind == "wireless":
+        # the same class behind `WirelessRouter` (its own loader loop; wired interface + access point; no hosts attached)
+        from primaite.simulator.network.hardware.nodes.network.wireless_router import WirelessRouter
+        x = WirelessRouter.from_config(dict(cfg, type="wireless-router",
+                                            router_interface={"ip_address": "10.0.1.1", "subnet_mask": "255.255.255.0"},
+                                            wireless_access_point={"ip_address": "10.0.2.1", "subnet_mask": "255.255.255.0",
+                                                                   "frequency": "WIFI_2_4"}), airspace=net.airspace)
+        net.add_node(x)
+        return net, x, [], {"router": x.acl}
     if kind == "router":
         x = Router.from_config(dict(cfg, num_ports=2))
     else:
@@ -536,8 +545,8 @@ def run_obj(case: dict) -> Tuple[List[str], List[str]]:
             kw["max_acl_rules"] = c["max"]
         lists = {"router": AccessControlList(sys_log=SysLog("verif"), name="verif", **kw)}
         lines.append(f"obj {25 if c['max'] is None else c['max']} {c['implicit'] if c['implicit'] in ('PERMIT', 'DENY') else '-'}")
-    elif host == "router":
-        net, x, hosts, lists = build_device("router", with_hosts=False, preload=case.get("preload"))
+    elif host in ("router", "wireless"):
+        net, x, hosts, lists = build_device(host, with_hosts=False, preload=case.get("preload"))
         lines.append("rt 25")
     else:
         net, x, hosts, lists = build_device("firewall", with_hosts=False, preload=case.get("preload"))
@@ -650,7 +659,7 @@ def run_dev(case: dict) -> Tuple[List[str], List[str], List[str]]:
         return permitted, rule
 
     def rx(self, frame, from_network_interface):
-        if type(self) is Router:
+        if type(self).__name__ in ("Router", "WirelessRouter"):
             log.append(("rx", id(frame), frame_view(frame)))
         return real_rx(self, frame, from_network_interface)
 
@@ -690,7 +699,7 @@ def run_dev(case: dict) -> Tuple[List[str], List[str], List[str]]:
         return denies, n
 
     patches = [mock.patch.object(AccessControlList, "is_permitted", isp)]
-    if kind == "router":
+    if kind in ("router", "wireless"):
         patches.append(mock.patch.object(Router, "receive_frame", rx))
     with contextlib.ExitStack() as st:
         for p in patches:
